@@ -9,4 +9,20 @@ MCInitList == [i \in 1..Cardinality(Keys) |-> i]
 \* senders: 1 = target A (non-DNS, v4), 2 = target B (port 53, v4), 3 = forbidden target (private), 4 = another port
 \* of A's host (v6 family in the model), 5 = stranger bound to a zoned link-local address, 6 = stranger on port 53
 MCFam == [s \in Senders |-> CASE s = 4 -> "v6" [] s = 5 -> "zoned" [] OTHER -> "v4"]
+D(c, k, hdr, dst, cls) == [c |-> c, k |-> k, hdr |-> hdr, dst |-> dst, cls |-> cls]
+R(s, cls) == [s |-> s, cls |-> cls]
+\* C03/C04: every client with every key (and with no key), malformed header, forbidden destination, DNS destination
+DgC03 == {D(1, 0, TRUE, 1, "1"), D(1, 1, TRUE, 1, "1"), D(1, 3, TRUE, 1, "1"),
+          D(2, 2, TRUE, 1, "1"), D(2, 1, TRUE, 1, "1"), D(3, 3, TRUE, 2, "0"),
+          D(3, 3, FALSE, 1, "1"), D(2, 2, TRUE, 3, "1")}
+RpC03 == {R(1, "1"), R(4, "1000")}
+\* C14: one or two clients, DNS and non-DNS destinations, replies from port 53 and from elsewhere
+DgC14 == {D(1, 1, TRUE, 1, "1"), D(1, 1, TRUE, 2, "1"), D(2, 2, TRUE, 2, "1")}
+RpC14 == {R(1, "1"), R(2, "1")}
+\* C16/C18: sizes at the boundaries, failing datagrams on live associations, every reply class
+DgC16 == {D(1, 1, TRUE, 1, "0"), D(1, 1, TRUE, 1, "max"), D(1, 2, TRUE, 1, "1"), D(1, 1, FALSE, 1, "1"),
+          D(1, 1, TRUE, 3, "1"), D(2, 2, TRUE, 2, "1000"), D(2, 0, TRUE, 1, "1")}
+RpC16 == {R(1, "0"), R(1, "fit"), R(1, "fit1"), R(1, "big"), R(4, "1000"), R(5, "1")}
+DgLong == {D(1, 1, TRUE, 1, "1"), D(1, 1, TRUE, 2, "0"), D(1, 2, TRUE, 1, "1")}
+RpLong == {R(2, "1")}
 =============================================================================
